@@ -278,10 +278,13 @@ fn run_word(cfg: &Cfg, word: &[Macro], reps: usize, log_on: bool) -> (Vec<Violat
                         }
                     }
                     Macro::DrainTo(k, order) => {
-                        let mut live: Vec<u32> = w(|w| (0..w.children.len() as u32).filter(|&i| {
-                            let c = &w.children[i as usize];
-                            c.accepted && c.drops == 0 && !c.completed && !c.released && !c.fed
-                        }).collect());
+                        let mut live: Vec<u32> = w(|w| {
+                            w.live_ids.iter().copied().filter(|&i| {
+                                let c = &w.children[i as usize];
+                                !c.released && !c.fed
+                            }).collect()
+                        });
+                        live.sort();
                         let n = live.len().saturating_sub(k);
                         let victims: Vec<u32> = match order {
                             Order::Fifo => live.drain(..n).collect(),
@@ -330,7 +333,8 @@ fn run_word(cfg: &Cfg, word: &[Macro], reps: usize, log_on: bool) -> (Vec<Violat
                         }
                     }
                 }
-                let held = w(|w| w.children.iter().filter(|c| c.accepted && c.drops == 0).count() + w.toks.iter().filter(|t| t.handed == 0 && t.drops == 0).count());
+                // children still inside the subject: running ones plus finished ones whose output is parked
+                let held = w(|w| w.live_ids.len()) + run.parked();
                 peak = peak.max(held);
             }
         }
@@ -399,6 +403,27 @@ fn all_words(thorough: bool) -> Vec<(String, Cfg, Vec<Macro>, usize)> {
         (Kind::Mu(0), if thorough { vec![0, 33, 70, 140] } else { vec![0, 33, 70] }, len.min(4)),
         (Kind::FuCap(2), vec![0, 2, 7], len),
     ];
+    // long oscillations between empty (or nearly empty) and a large peak: a growth policy that does
+    // not double, or a retained group that is too small, shows only after many refills
+    let long_reps = if thorough { 400 } else { 150 };
+    for kind in [Kind::FuNew, Kind::FoNew, Kind::Mu(0), Kind::FuCap(1), Kind::FoCap(1)] {
+        let peaks: &[usize] = if thorough { &[100, 260, 520, 1000] } else { &[100, 260, 520] };
+        for &pk in peaks {
+            for lo in [0usize, 1, 40] {
+                for word in words_over(&[lo, pk], 2) {
+                    if !matches!(word[0], Macro::FillTo(k) if k == pk) {
+                        continue;
+                    }
+                    let mut cfg = Cfg::new("C18", kind);
+                    cfg.specs = vec![if kind.is_merge() { ChildSpec::stream("P") } else { ChildSpec::fut(Mode::Gate) }];
+                    cfg.ops = ops::POLL | ops::PUSH | ops::COMPLETE;
+                    cfg.horizon = 10;
+                    let name = format!("words {:?} x{} {:?}", kind, long_reps, word);
+                    v.push((name, cfg, word, long_reps));
+                }
+            }
+        }
+    }
     for (kind, ks, l) in subjects {
         for word in words_over(&ks, l) {
             let mut cfg = Cfg::new("C18", kind);
